@@ -1115,7 +1115,7 @@ class DateTime(datetime.datetime, Date):
             dt = dt.next(day_of_week)
 
         if dt.format("%Y-%M") == check:
-            return self.set(day=dt.day).start_of("day")
+            return self.start_of("day").set(day=dt.day)
 
         return None
 
@@ -1126,8 +1126,10 @@ class DateTime(datetime.datetime, Date):
         modify to the first day of the quarter. Use the supplied consts
         to indicate the desired day_of_week, ex. DateTime.MONDAY.
         """
-        return self.on(self.year, self.quarter * 3 - 2, 1).first_of(
-            "month", day_of_week
+        return (
+            self.start_of("day")
+            .on(self.year, self.quarter * 3 - 2, 1)
+            .first_of("month", day_of_week)
         )
 
     def _last_of_quarter(self, day_of_week: WeekDay | None = None) -> Self:
@@ -1137,7 +1139,11 @@ class DateTime(datetime.datetime, Date):
         modify to the last day of the quarter. Use the supplied consts
         to indicate the desired day_of_week, ex. DateTime.MONDAY.
         """
-        return self.on(self.year, self.quarter * 3, 1).last_of("month", day_of_week)
+        return (
+            self.start_of("day")
+            .on(self.year, self.quarter * 3, 1)
+            .last_of("month", day_of_week)
+        )
 
     def _nth_of_quarter(
         self, nth: int, day_of_week: WeekDay | None = None
@@ -1152,7 +1158,7 @@ class DateTime(datetime.datetime, Date):
         if nth == 1:
             return self.first_of("quarter", day_of_week)
 
-        dt = self.set(day=1, month=self.quarter * 3)
+        dt = self.start_of("day").set(day=1, month=self.quarter * 3)
         last_month = dt.month
         year = dt.year
         dt = dt.first_of("quarter")
@@ -1162,7 +1168,7 @@ class DateTime(datetime.datetime, Date):
         if last_month < dt.month or year != dt.year:
             return None
 
-        return self.on(self.year, dt.month, dt.day).start_of("day")
+        return self.start_of("day").on(self.year, dt.month, dt.day)
 
     def _first_of_year(self, day_of_week: WeekDay | None = None) -> Self:
         """
@@ -1171,7 +1177,7 @@ class DateTime(datetime.datetime, Date):
         modify to the first day of the year. Use the supplied consts
         to indicate the desired day_of_week, ex. DateTime.MONDAY.
         """
-        return self.set(month=1).first_of("month", day_of_week)
+        return self.start_of("day").set(month=1).first_of("month", day_of_week)
 
     def _last_of_year(self, day_of_week: WeekDay | None = None) -> Self:
         """
@@ -1180,7 +1186,11 @@ class DateTime(datetime.datetime, Date):
         modify to the last day of the year. Use the supplied consts
         to indicate the desired day_of_week, ex. DateTime.MONDAY.
         """
-        return self.set(month=MONTHS_PER_YEAR).last_of("month", day_of_week)
+        return (
+            self.start_of("day")
+            .set(month=MONTHS_PER_YEAR)
+            .last_of("month", day_of_week)
+        )
 
     def _nth_of_year(self, nth: int, day_of_week: WeekDay | None = None) -> Self | None:
         """
@@ -1201,7 +1211,7 @@ class DateTime(datetime.datetime, Date):
         if year != dt.year:
             return None
 
-        return self.on(self.year, dt.month, dt.day).start_of("day")
+        return self.start_of("day").on(self.year, dt.month, dt.day)
 
     def average(  # type: ignore[override]
         self, dt: datetime.datetime | None = None
